@@ -91,7 +91,12 @@ def main():
         rec = {'property': pid, 'task': t.name, 'key': key, 'msg': v['msg'], 'witness': v.get('witness'),
                'extra': v.get('extra'), 'where': v.get('where'), 'bounds': t.bounds}
         try:
-            ok, detail = mod.replay(t, v) if hasattr(mod, 'replay') else (None, 'no native replay available')
+            if hasattr(mod, 'replay') and t.opts.get('custom_replay', True) and not t.opts.get('native'):
+                ok, detail = mod.replay(t, v)
+            else:
+                from mirsym.explore import replay_native
+                h = getattr(mod, t.factory)(w, **t.params)
+                ok, detail = replay_native(w, h, v, common.replayer().run)
         except Exception as e:
             ok, detail = None, 'replay failed to run: %r' % (e,)
         rec['native_replay'] = detail
